@@ -689,9 +689,10 @@ class Fxp():
             vdtype = type(val)
 
         elif isinstance(val, (np.ndarray, np.generic)):
-            if val.dtype == object:
+            if val.dtype == object and not all(isinstance(v, (int, np.integer)) for v in val.flat):
                 # an array of Python numbers: its elements can differ in type, and casting all of them
                 # to the type of the first one (e.g. int) would truncate the others before rounding
+                # (arrays of integers only are left alone: they may hold integers beyond 64 bits)
                 val = np.array(val.tolist())
 
             if isinstance(val, object):
